@@ -14,12 +14,25 @@
      - every diagnostic range collected from the tree lies inside the token vector, so the index and
        slice expressions of AnalyzedSource::errors() never panic, and every published byte range lies
        inside the document (C02_errors_total, C02_errors_inside, C02_analysis_total);
-     - along every edit history the lexer part of AnalyzedSource::update never panics (C01_lexer_total).
+     - along every edit history the lexer part of AnalyzedSource::update never panics (C01_lexer_total);
+     - request handlers: each handler is proved panic-free per feature (C12-C17) under an executable
+       well-formedness predicate on the analysed document (Refs.nav_wf_b: go-to x4, references, rename,
+       prepareRename; Hover.cursor_pre: hover; Completion.compl_wf_b: completion; Fold.fold_pre:
+       foldingRange; SemTok.doc_wf_b: semanticTokens).  Every one of these predicates holds for the
+       document AnalyzedSource::new builds from ANY text (C02_new_doc_nav_wf, C02_new_doc_cursor_pre,
+       C02_new_doc_compl_wf, C02_new_doc_fold_pre, C02_new_doc_doc_wf; proofs in Proofs/Total*.v from
+       the position discipline of the parser, T5 and R2), and signatureHelp - which has no predicate
+       of its own - is total as well.  Hence on a freshly analysed document NO request handler panics,
+       whatever the text and the position (C02_handlers_total): every slice, index and `expect` of
+       goto.rs, references.rs, hover.rs, signature_help.rs, completion.rs, fold.rs and
+       semantic_tokens.rs is unreachable there.
    The incremental parser CAN panic after edits (known finding C01-incparse, class: predicted by the
-   model); request handlers are covered per feature (C12-C17) and by the check's request fuzz.
+   model), so after an edit the handlers are covered by the check's request fuzz only.
    Process liveness, stack depth and allocation are observed by the check, not proved. *)
 From Spl Require Import Model.Lexer Model.Parser Model.Update Model.Errors Proofs.LexerProofs Proofs.ParserTotal
   Proofs.ParserProofs Proofs.PipelineProofs Proofs.SemProofs Proofs.RangeProofs.
+From Spl Require Import Model.Refs Model.Hover Model.SigHelp Model.Completion Model.Fold Model.SemTok
+  Proofs.TotalCursor Proofs.TotalFold Proofs.TotalCompl Proofs.TotalNav.
 
 Theorem C02_lex_total : forall s : text, exists toks, lex s = Some toks.
 Proof. exact lex_total. Qed.
@@ -71,6 +84,59 @@ Theorem C02_analysis_total : forall t,
               Forall (fun y => (fst (fst y) <= snd (fst y) <= blen t)%N) l.
 Proof. exact analysis_total. Qed.
 Print Assumptions C02_analysis_total.
+
+(* ---- request handlers on a freshly analysed document ---- *)
+
+(* the well-formedness predicates of C12-C17 hold for the document of every text *)
+Theorem C02_new_doc_nav_wf : forall t d, new_doc_res t = ODone d -> nav_wf_b d = true.
+Proof. exact new_doc_nav_wf. Qed.
+Print Assumptions C02_new_doc_nav_wf.
+
+Theorem C02_new_doc_cursor_pre : forall t d, new_doc_res t = ODone d -> cursor_pre d = true.
+Proof. exact new_doc_cursor_pre. Qed.
+Print Assumptions C02_new_doc_cursor_pre.
+
+Theorem C02_new_doc_compl_wf : forall t d, new_doc_res t = ODone d -> compl_wf_b d = true.
+Proof. exact new_doc_compl_wf. Qed.
+Print Assumptions C02_new_doc_compl_wf.
+
+Theorem C02_new_doc_fold_pre : forall t d, new_doc_res t = ODone d -> fold_pre d = true.
+Proof. exact new_doc_fold_pre. Qed.
+Print Assumptions C02_new_doc_fold_pre.
+
+Theorem C02_new_doc_doc_wf : forall t d, new_doc_res t = ODone d -> doc_wf_b d = true.
+Proof. exact new_doc_doc_wf. Qed.
+Print Assumptions C02_new_doc_doc_wf.
+
+(* no request handler panics, whatever the text and the position *)
+Theorem C02_handlers_total : forall t d (line col : N),
+  new_doc_res t = ODone d ->
+  (exists r, goto_declaration d line col = ROk r) /\
+  (exists r, goto_definition d line col = ROk r) /\
+  (exists r, goto_type_definition d line col = ROk r) /\
+  (exists r, goto_implementation d line col = ROk r) /\
+  (exists r, references d line col = ROk r) /\
+  (exists r, rename d line col = ROk r) /\
+  (exists r, prepare_rename d line col = ROk r) /\
+  (exists r, hover d line col = ROk r) /\
+  (exists r, signature_help d line col = ROk r) /\
+  (exists r, propose d line col = ROk r) /\
+  (exists r, fold d = ROk r) /\
+  (exists r, semantic_tokens d = SOk r).
+Proof. exact handlers_total. Qed.
+Print Assumptions C02_handlers_total.
+
+(* the predicates are not vacuous: they fail on a document whose tree does not belong to its tokens *)
+Example C02_predicates_example :
+  match new_doc_res [112; 114; 111; 99; 32; 109; 97; 105; 110; 40; 41; 123; 125]%N with   (* "proc main(){}" *)
+  | ODone d =>
+      let d' := {| d_text := d_text d; d_toks := firstn 3 (d_toks d); d_ast := d_ast d; d_table := d_table d |} in
+      (nav_wf_b d, cursor_pre d, compl_wf_b d, fold_pre d) = (true, true, true, true) /\
+      (nav_wf_b d', cursor_pre d', compl_wf_b d', fold_pre d') = (false, false, false, false) /\
+      hover d' 0 6 = RFail SiteTokenSlice
+  | _ => False
+  end.
+Proof. vm_compute. repeat split; reflexivity. Qed.
 
 (* non-vacuity: a broken text is analysed to a tree *)
 Example C02_example :
